@@ -50,6 +50,13 @@ def str_(ex, x, node=None):
         return SymVal('str', z3.String(f'str({x.label})'))
     if isinstance(x, (SymSeq, SymDictU)):
         return SymVal('str', z3.String(f'str({x.label})'))
+    if isinstance(x, ExcVal):
+        # str(exception): its single argument, else an unknown text (BaseException.__str__ never raises for str / no arguments)
+        if len(x.args) == 1 and isinstance(x.args[0], (str, SymVal)):
+            return str_(ex, x.args[0], node)
+        if not x.args:
+            return ''
+        return SymVal('str', z3.String(ex.fresh_name(f'str({x.cls.__name__})')))
     if is_abstract(x):
         raise Unsupported(f'str() of {x!r}')
     if deep_abstract(x):
@@ -960,6 +967,9 @@ def call_external(ex, f, args, kwargs, node):
         return _json.dumps(*args, **kwargs)
     if getattr(f, '__module__', None) == 're' and not deep_abstract(args):
         return f(*args, **kwargs)
+    import re as _re1
+    if isinstance(getattr(f, '__self__', None), _re1.Pattern) and not deep_abstract(args) and not deep_abstract(kwargs):
+        return f(*args, **kwargs)          # a compiled pattern applied to concrete text: the real thing (pure)
     if f is vars:
         if isinstance(args[0], SymObj):
             return args[0].fields
